@@ -41,26 +41,34 @@ HARNESSES = [
   'oracle': 'the two cleaned names differ',
   'bounds': {'quick': {'defs': {'SMAX': 4}, 'unwind': 7, 'cap': 600}}},
 ] + [
- {'id': 'c03_hash_signature_k%d_p%d%s' % (k, p1, '' if k == 3 else '_%d' % lo),
+ {'id': 'c03_hash_signature_k%d_p%d%s%s' % (k, p1, '' if k == 3 else '_%d' % lo, '' if o == 0 else '_o%d' % o),
   'property': 'C03',
   'src': 'c03_hash_sig.cxx',
   'entry': 'harness_c03_hash_signature',
   'tus': ['src/interrogate/interfaceMaker.cxx', _B],
   'cut': ['_ZN18InterrogateBuilder11hash_stringERKNSt7__cxx1112basic_stringIcSt11char_traitsIcESaIcEEEi'],
   'skip_ctors': ['interfaceMaker.cxx', 'interrogateBuilder.cxx'],
-  'desc': 'InterfaceMaker::hash_function_signature over %d remaps with distinct signatures; hash_string replaced by a '
-          'table realising every collision pattern (pairs of set partitions of the signatures at hash level 1 and 2); '
-          'first-level partition no. %d, second-level partitions %d..%d' % (k, p1, lo, hi - 1),
+  'desc': ('InterfaceMaker::hash_function_signature over %d remaps with distinct signatures; hash_string replaced by a '
+           'table realising every collision pattern (pairs of set partitions of the signatures at hash level 1 and 2) in '
+           'every insertion order; the wrapper symbol / unique name suffix of a remap is the value of _hash right after its '
+           'own call (as make_function_remap forms _wrapper_name/_unique_name, never recomputed); one entry per first-level '
+           'partition and insertion order: partition no. 0, order no. 0' % k) if (p1, o) == (0, 0) else
+          'the same for first-level partition no. %d, insertion order no. %d' % (p1, o),
   'domain': '%d remaps, first-level partition no. %d x second-level partitions %d..%d (all entries together: every pair, 5x5 for 3 '
             'remaps, 15x15 for 4); keys concrete per pattern (map semantics are order-independent), real std::map over '
-            'the rbtree model' % (k, p1, lo, hi - 1),
-  'oracle': 'resulting _hash values pairwise distinct, 4..9 identifier characters, the map maps each final hash to its remap, '
+            'the rbtree model; insertion order = permutation no. %d (all entries together: every order)' % (k, p1, lo, hi - 1, o),
+  'oracle': 'the name suffixes taken right after each insertion (= emitted wrapper symbols / unique names) pairwise distinct; '
+            'resulting _hash values pairwise distinct, 4..9 identifier characters, the map maps each final hash to its remap, '
             'abort() and the internal-error paths never reached',
-  'tiers': ('quick', 'thorough') if k == 3 else ('thorough',),
-  'bounds': {t: {'defs': {'KMAX': k, 'P1': p1, 'P2LO': lo, 'P2HI': hi}, 'unwind': 60,
+  # quick tier: the identity and the reversed insertion order; thorough: all six
+  'tiers': ('quick', 'thorough') if k == 3 and o in (0, 5) else ('thorough',),
+  'bounds': {t: {'defs': {'KMAX': k, 'P1': p1, 'P2LO': lo, 'P2HI': hi, 'ORDLO': o, 'ORDHI': o + 1}, 'unwind': 60,
                  'unwindset': dict(DIAG_LOOPS, **{'_ZL13make_patternsv.%d' % q: 1100 for q in range(5)}), 'cap': 900}
              for t in ('quick', 'thorough')}}
  # 4 remaps (15x15 partition pairs) were tried: one query of 5 pairs did not finish symbolic execution in 15 min
+ # one entry per insertion order: 6 orders x 5 second-level partitions in ONE query took 330 s (superlinear in live heap
+ # objects), one order takes ~17 s
+ for o in range(6)
  for k, p1, lo, hi in [(3, p1, 0, 5) for p1 in range(5)]
 ]
 
